@@ -169,7 +169,7 @@ static void do_read(char *file, char *queries)
 			err = reftable_reader_seek_ref(rd, &it, (char *)name);
 			if (err < 0)
 				printf("err");
-			else
+			else if (err == 0) /* > 0: nothing at or after the key */
 				drain_refs(&it, hs);
 			free(name);
 		} else if (!strcmp(q, "sl")) {
@@ -182,7 +182,7 @@ static void do_read(char *file, char *queries)
 			err = reftable_reader_seek_log_at(rd, &it, (char *)name, idx);
 			if (err < 0)
 				printf("err");
-			else
+			else if (err == 0)
 				drain_logs(&it, hs);
 			free(name);
 		} else if (!strcmp(q, "rf")) {
@@ -190,11 +190,12 @@ static void do_read(char *file, char *queries)
 			err = reftable_reader_refs_for(rd, &it, oid);
 			if (err < 0)
 				printf("err");
-			else
+			else if (err == 0)
 				drain_refs(&it, hs);
 			free(oid);
 		}
-		reftable_iterator_destroy(&it);
+		if (it.ops)
+			reftable_iterator_destroy(&it);
 	}
 	printf("\n");
 	reftable_reader_free(rd);
